@@ -27,6 +27,9 @@ type (
 		*fql.BaseFqlParserVisitor
 		src   string
 		funcs *core.Functions
+		// funcsOwned is true once funcs is a private copy of the compiler's
+		// function table (made on the first USE of the query being compiled).
+		funcsOwned bool
 	}
 )
 
@@ -41,9 +44,9 @@ const (
 
 func newVisitor(src string, funcs *core.Functions) *visitor {
 	return &visitor{
-		&fql.BaseFqlParserVisitor{},
-		src,
-		funcs,
+		BaseFqlParserVisitor: &fql.BaseFqlParserVisitor{},
+		src:                  src,
+		funcs:                funcs,
 	}
 }
 
@@ -96,6 +99,14 @@ func (v *visitor) visitHead(c fql.IHeadContext, namespaces map[string]struct{}) 
 
 		namespaces[ns] = struct{}{}
 
+		// The function table the visitor was given belongs to the compiler and
+		// is shared by all its compilations. Imports must be visible to this
+		// query only, so they go into a copy that lives as long as the visitor.
+		if !v.funcsOwned {
+			v.funcs = cloneFunctions(v.funcs)
+			v.funcsOwned = true
+		}
+
 		err := copyFromNamespace(v.funcs, ns)
 		if err != nil {
 			return errors.Wrapf(err, `copy from namespace "%s"`, ns)
@@ -103,6 +114,18 @@ func (v *visitor) visitHead(c fql.IHeadContext, namespaces map[string]struct{}) 
 	}
 
 	return nil
+}
+
+func cloneFunctions(fns *core.Functions) *core.Functions {
+	clone := core.NewFunctions()
+
+	for _, name := range fns.Names() {
+		if fn, exists := fns.Get(name); exists {
+			clone.Set(name, fn)
+		}
+	}
+
+	return clone
 }
 
 func copyFromNamespace(fns *core.Functions, namespace string) error {
